@@ -87,6 +87,29 @@ func metaInvariant(t *tensor.Dense) string {
 	return bad
 }
 
+// orderInvariant: the data-order flags agree with the strides. A tensor that is not marked transposed and whose
+// strides are exactly the canonical row-major (column-major) strides of its shape - and not also the other ones - must
+// report IsRowMajor (IsColMajor): kernels choose their traversal from the flag alone.
+func orderInvariant(t *tensor.Dense) string {
+	shape := t.Shape()
+	m := tensor.VerifMetaOf(t)
+	if m.O.IsTransposed() && m.OldZero {
+		return fmt.Sprintf("flagged transposed without a pre-transpose access pattern (shape %v strides %v)", shape, m.Strides)
+	}
+	if len(shape) < 2 || len(m.Strides) != len(shape) || m.O.IsTransposed() || !m.OldZero {
+		return ""
+	}
+	rm := ref.EqInts(m.Strides, tensor.Shape(shape).CalcStrides())
+	cm := ref.EqInts(m.Strides, tensor.Shape(shape).CalcStridesColMajor())
+	switch {
+	case rm && !cm && m.O.IsColMajor():
+		return fmt.Sprintf("row-major strides %v for shape %v but the tensor is flagged column-major", m.Strides, shape)
+	case cm && !rm && !m.O.IsColMajor():
+		return fmt.Sprintf("column-major strides %v for shape %v but the tensor is flagged row-major", m.Strides, shape)
+	}
+	return ""
+}
+
 func runC13(r *core.Run) {
 	quick := isQuick(r)
 	d := ref.Float64
